@@ -20,9 +20,9 @@ VERIF = Path(__file__).resolve().parent.parent
 LEAN = VERIF / "lean"
 REPO = Path(os.environ.get("VERIF_REPO", "/repo"))
 PY = os.environ.get("VERIF_PYTHON", "/venv/bin/python")
-OUT = VERIF / "out"
+OUT = VERIF / "out" if str(REPO) == "/repo" else VERIF / "out" / ("scratch-" + REPO.name)
 # evidence describes /repo itself; runs against a scratch copy (seeded changes) write theirs under out/
-EVIDENCE = VERIF / "evidence" if str(REPO) == "/repo" else VERIF / "out" / "evidence-scratch"
+EVIDENCE = VERIF / "evidence" if str(REPO) == "/repo" else OUT / "evidence"
 STD_AXIOMS = {"propext", "Classical.choice", "Quot.sound"}
 FORBIDDEN = re.compile(
     r"\bsorry\b|\badmit\b|^\s*axiom\s|native_decide|bv_decide|implemented_by|\bunsafe\s|maxHeartbeats\s+0"
@@ -299,7 +299,7 @@ def _run(spec: PropSpec, ctx: Ctx, explore, failing_input_search) -> int:
           "coverage": cov, "assumptions": spec.assumptions, "wall_s": round(ctx.elapsed(), 2),
           "violations": len(new) + (1 if (structural and not new) else 0),
           "known_findings_seen": sorted({f.known_id for f in known})}
-    EVIDENCE.mkdir(exist_ok=True)
+    EVIDENCE.mkdir(parents=True, exist_ok=True)
     (EVIDENCE / f"{spec.pid}.json").write_text(json.dumps(ev, indent=1, default=str))
     if rc == 0:
         print(f"OK property={spec.pid} tier={ctx.tier} seed={ctx.seed} theorems={len(thms)} "
